@@ -5,6 +5,7 @@ import (
 	"fmt"
 	"github.com/trustbloc/sidetree-go/pkg/api/operation"
 	"github.com/trustbloc/sidetree-go/pkg/document"
+	"math"
 	"strings"
 
 	"github.com/trustbloc/sidetree-go/pkg/api/protocol"
@@ -214,6 +215,18 @@ func c02Tamperings() []tampering {
 		}},
 		{"delta-substituted-commitment", "ur", func(h *histCtx, s *opStep) {
 			s.Spec.RequestDelta = map[string]interface{}{"updateCommitment": gen.NewKey(h.r, h.keyType).Commitment(h.code), "patches": s.Spec.Patches}
+			s.Facts.DeltaBound = false
+		}},
+		{"delta-number-changed-to-neighbouring-double", "ur", func(h *histCtx, s *opStep) {
+			// the signed delta holds a number, the delta sent holds the next representable double: another value, another hash
+			x := fw.Pick(h.r, []float64{9223372036854775808.0, 1e19, 1e20, 123456789012345680000.0, 9007199254740992.0, 4.5, 1e-7, 0.1, 1e21, 3e300, 5e-324, 2251799813685248.5})
+			y := math.Nextafter(x, math.Inf(1))
+			mk := func(v float64) []interface{} {
+				return append(append([]interface{}{}, s.Spec.Patches...), gen.PJSON(map[string]interface{}{"op": "add", "path": "/serial", "value": v}))
+			}
+			s.Spec.Patches = mk(x)
+			s.Facts.Patches = s.Spec.Patches
+			s.Spec.RequestDelta = map[string]interface{}{"updateCommitment": s.Spec.UpdateCommitment, "patches": mk(y)}
 			s.Facts.DeltaBound = false
 		}},
 		{"delta-member-reordered-only", "ur", func(h *histCtx, s *opStep) {
